@@ -937,6 +937,10 @@ class C04(Prop):
         for conf in ("noeh-locals", "eh-locals", "noeh-both", "eh-args"):
             B.append(self.mk("b-%s-rec-locals-stack" % conf, Q(R(20, 3), W(5)), depth=150, stack=300, conf=conf, argkind="str"))
             B.append(self.mk("b-%s-rec-cbargs-stack" % conf, R(12, 4), depth=150, stack=200, conf=conf, argkind="arr"))
+        # consecutive budgets: for some of them the tick that uses the budget up is the callback's own tick (call_efun_callback),
+        # not an instruction's - the expiry must be raised there as well
+        for c in range(300, 312):
+            B.append(self.mk("b-cb-align-%d" % c, Q(Bk(60, W(2, 1)), S), cost=c))
         # callbacks whose work adds up to more than the budget: the expiry comes inside one of them
         B.append(self.mk("b-cb-overbudget-map", Q(Bk(40, W(60)), W(5)), cost=2000))
         B.append(self.mk("b-cb-overbudget-filter", C(Bk(60, W(25, 1), 1)), cost=2000))
